@@ -99,4 +99,8 @@ else:
         res[name] = parse(r)
         show(name, res[name])
 if out:
-    json.dump(res, open(out, "w"), indent=1)
+    if "--merge" in sys.argv and os.path.isfile(out):
+        old = json.load(open(out))
+        old.update(res)
+        res = old
+    json.dump(res, open(out, "w"), indent=1, sort_keys=True)
